@@ -9,7 +9,7 @@ invariant Inv (rollup <= end when both are set), every statement shape and all a
   (b) R.end, R.start set          =>  billed(R) <= max(R.end - R.start, 0)
   (c) billed(R) >= billed(OLD)    unless the report moves the end earlier (R.end set and (OLD.end unset or R.end < OLD.end))
                                   or marks an activation timeout (the written reason is 'activation_timeout')
-  (d) OLD.reason set              =>  R.reason set, and OLD.end set => R.end set and R.end <= OLD.end
+  (d) OLD.reason set              =>  R.reason set, and OLD.end set => R.end set and R.end <= OLD.end, and OLD.end NULL => R.end NULL
   (e) OLD.start set and not activation_timeout  =>  R.start set and R.start <= OLD.start
   (f) Inv(R)
 Interpretation stated openly: "never exceeds end - start" is read as max(end - start, 0).
@@ -56,7 +56,7 @@ def obligations(ctx, label, hyps, old, new, written_reason: SV, replay=None):
     ctx.add(core.valid('%s/b-billed-bounded-by-end-minus-start' % label, h + [z3.Not(ne.n), z3.Not(ns.n)], billed(new) <= bound), replay=replay)
     end_earlier = z3.And(z3.Not(ne.n), z3.Or(oe.n, ne.v < oe.v))
     ctx.add(core.valid('%s/c-billed-monotone-unless-end-earlier-or-activation-timeout' % label, h, z3.Or(billed(new) >= billed(old), end_earlier, to)), replay=replay)
-    ctx.add(core.valid('%s/d-reason-and-end-frozen-except-earlier-end' % label, h + [z3.Not(orr.n)], z3.And(z3.Not(nrr.n), z3.Implies(z3.Not(oe.n), z3.And(z3.Not(ne.n), ne.v <= oe.v)))), replay=replay)
+    ctx.add(core.valid('%s/d-reason-and-end-frozen-except-earlier-end' % label, h + [z3.Not(orr.n)], z3.And(z3.Not(nrr.n), z3.Implies(z3.Not(oe.n), z3.And(z3.Not(ne.n), ne.v <= oe.v)), z3.Implies(oe.n, ne.n))), replay=replay)  # an ended attempt without an end time stays without one: a later report has nothing earlier to offer
     ctx.add(core.valid('%s/e-start-only-moves-earlier' % label, h + [z3.Not(os_.n), z3.Not(to)], z3.And(z3.Not(ns.n), ns.v <= os_.v)), replay=replay)
     ctx.add(core.valid('%s/f-rollup-not-after-end' % label, h, inv(new)), replay=replay)
     ctx.add(core.satisfiable('%s/vacuity/reachable' % label, h))
